@@ -64,6 +64,7 @@ let tok_of_string s =
   | "!" -> TNot | "~" -> TTilde | "++" -> TInc | "--" -> TDec
   | "(" -> TLP | ")" -> TRP | "[" -> TLB | "]" -> TRB | "." -> TDot | "->" -> TArrow
   | "?" -> TQ | ":" -> TColon | "," -> TComma | "=" -> TAsg None | ";" -> TSemi | "}" -> TRBrace
+  | "await" -> TAwait | "try" -> TTry | "checked" -> TChecked
   | _ ->
     (match List.assoc_opt s binops with
      | Some o -> TOp o
@@ -82,7 +83,7 @@ let string_of_tok = function
   | TNot -> "!" | TTilde -> "~" | TInc -> "++" | TDec -> "--" | TLP -> "(" | TRP -> ")"
   | TLB -> "[" | TRB -> "]" | TDot -> "." | TArrow -> "->" | TQ -> "?" | TColon -> ":"
   | TComma -> "," | TAsg None -> "=" | TAsg (Some o) -> binop_text o ^ "=" | TSemi -> ";"
-  | TRBrace -> "}" | TOther -> "@other@" | TKw k -> List.nth keywords (int_of_nat k)
+  | TRBrace -> "}" | TOther -> "@other@" | TAwait -> "await" | TTry -> "try" | TChecked -> "checked" | TKw k -> List.nth keywords (int_of_nat k)
 let text_of_toks ts = String.concat " " (List.map string_of_tok ts)
 
 let split_ws s = List.filter (fun x -> x <> "") (String.split_on_char ' ' s)
@@ -100,6 +101,7 @@ let split_ctx line =
 
 (* ---------------------------------------------------------------- dump *)
 let unop_text = function Not -> "!" | Neg -> "-" | BNot -> "~" | Addr -> "ADDRESS_OF" | Deref -> "DEREFERENCE"
+                          | Await -> "await" | TryE -> "try" | Checked -> "checked"
 
 (* full_type of parseType for the reachable shapes: base, '*'s, dims, '&' for an lvalue reference *)
 let type_text ty =
@@ -133,6 +135,8 @@ let rec dump ?(clone = false) (e : expr) : string =
   | Var x -> Printf.sprintf "(VARIABLE name=%s)" (name_of x)
   | Par a -> d a
   | Bin (o, a, b) -> Printf.sprintf "(BINARY_OP op=%s L%s R%s)" (binop_text o) (d a) (d b)
+  | Un (TryE, a) -> Printf.sprintf "(TRY_EXPR L%s)" (d a)
+  | Un (Checked, a) -> Printf.sprintf "(CHECKED_EXPR L%s)" (d a)
   | Un (u, a) -> Printf.sprintf "(UNARY_OP op=%s L%s)" (unop_text u) (d a)
   | Pre (i, a) -> Printf.sprintf "(PRE_INCDEC op=%s L%s)" (if i then "++" else "--") (d a)
   | Post (i, a) -> Printf.sprintf "(POST_INCDEC op=%s L%s)" (if i then "++" else "--") (d a)
@@ -141,6 +145,7 @@ let rec dump ?(clone = false) (e : expr) : string =
   | Arrow (a, m) -> Printf.sprintf "(ARROW_ACCESS name=%s L%s)" (name_of m) (d a)
   | Call (f, _) when int_of_nat f = 0 -> "(SIZEOF_EXPR)"      (* sizeof_expr is not a field the dump hook prints *)
   | SizeofT -> "(SIZEOF_EXPR)"
+  | ArrLit l -> Printf.sprintf "(ARRAY_LITERAL%s)" (dump_args ~clone l)
   | Call (f, args) -> Printf.sprintf "(FUNC_CALL name=%s%s)" (name_of f) (dump_args ~clone args)
   | MCall (_, a, m, args) -> Printf.sprintf "(FUNC_CALL name=%s L%s%s)" (name_of m) (d a) (dump_args ~clone args)
   | Generic (n, Call (f, args)) ->
@@ -199,7 +204,8 @@ let rec expr_of_sx = function
   | Lst [A "P"; e] -> Par (expr_of_sx e)
   | Lst [A "B"; A o; a; b] -> Bin (List.assoc o binops, expr_of_sx a, expr_of_sx b)
   | Lst [A "U"; A u; a] ->
-    Un ((match u with "!" -> Not | "-" -> Neg | "~" -> BNot | "&" -> Addr | "*" -> Deref | _ -> failwith "unop"), expr_of_sx a)
+    Un ((match u with "!" -> Not | "-" -> Neg | "~" -> BNot | "&" -> Addr | "*" -> Deref | "await" -> Await | "try" -> TryE
+                     | "checked" -> Checked | _ -> failwith "unop"), expr_of_sx a)
   | Lst [A "PRE"; A d; a] -> Pre (d = "++", expr_of_sx a)
   | Lst [A "POST"; A d; a] -> Post (d = "++", expr_of_sx a)
   | Lst [A "I"; a; i] -> Idx (expr_of_sx a, expr_of_sx i)
@@ -207,6 +213,7 @@ let rec expr_of_sx = function
   | Lst [A "A"; a; A m] -> Arrow (expr_of_sx a, intern m)
   | Lst (A "C" :: A f :: args) -> Call (intern f, List.map expr_of_sx args)
   | Lst (A "MC" :: A k :: a :: A m :: args) -> MCall (k = "->", expr_of_sx a, intern m, List.map expr_of_sx args)
+  | Lst (A "AL" :: l) -> ArrLit (List.map expr_of_sx l)
   | Lst [A "K"; A ty; a] ->
     (* cast to a keyword type with '*'s, e.g. (K int** (V a)) *)
     let n = String.length ty in
@@ -227,7 +234,7 @@ let rec sx_of_expr e =
   match e with
   | Num n -> p "(N %d)" (int_of_n n) | Var x -> p "(V %s)" (name_of x) | Par a -> p "(P %s)" (sx_of_expr a)
   | Bin (o, a, b) -> p "(B %s %s %s)" (binop_text o) (sx_of_expr a) (sx_of_expr b)
-  | Un (u, a) -> p "(U %s %s)" (match u with Not -> "!" | Neg -> "-" | BNot -> "~" | Addr -> "&" | Deref -> "*") (sx_of_expr a)
+  | Un (u, a) -> p "(U %s %s)" (match u with Not -> "!" | Neg -> "-" | BNot -> "~" | Addr -> "&" | Deref -> "*" | Await -> "await" | TryE -> "try" | Checked -> "checked") (sx_of_expr a)
   | Pre (d, a) -> p "(PRE %s %s)" (if d then "++" else "--") (sx_of_expr a)
   | Post (d, a) -> p "(POST %s %s)" (if d then "++" else "--") (sx_of_expr a)
   | Idx (a, i) -> p "(I %s %s)" (sx_of_expr a) (sx_of_expr i)
@@ -237,6 +244,7 @@ let rec sx_of_expr e =
   | MCall (ar, a, m, args) -> p "(MC %s %s %s%s)" (if ar then "->" else ".") (sx_of_expr a) (name_of m)
                                 (String.concat "" (List.map (fun a -> " " ^ sx_of_expr a) args))
   | SizeofT -> "(SZT)"
+  | ArrLit l -> p "(AL%s)" (String.concat "" (List.map (fun a -> " " ^ sx_of_expr a) l))
   | Tern (c, a, b) -> p "(T %s %s %s)" (sx_of_expr c) (sx_of_expr a) (sx_of_expr b)
   | Asg (o, l, r) -> p "(S %s %s %s)" (match o with None -> "=" | Some o -> binop_text o ^ "=") (sx_of_expr l) (sx_of_expr r)
   | EProp a -> p "(E %s)" (sx_of_expr a)
